@@ -67,29 +67,30 @@ def build_file(case):
     names = [s['name'] for s in syms]
     blob, offs = W.build_strtab(names, share_suffix=case.get('share_suffix', False))
     symdata = b''.join(W.enc_sym(cls, le, offs[s['name']], s['value'], s['size'], s['info'], s['other'], s['shndx']) for s in syms)
-    secs = [{'name': '', 'sh_type': 0},
+    P = case.get('pad', 0)      # filler sections in front: the tables then sit at (and link to) large section indices
+    secs = [{'name': '', 'sh_type': 0}] + [{'name': 'f%d' % (i % 9), 'sh_type': 1, 'data': None, 'sh_offset': 0, 'sh_size': 0} for i in range(P)] + [
             {'name': '.dynstr', 'sh_type': 3, 'data': blob},
-            {'name': '.dynsym', 'sh_type': case['tabtype'], 'data': symdata, 'sh_entsize': W.SYM_SIZE[cls], 'sh_link': 1, 'sh_info': 1}]
+            {'name': '.dynsym', 'sh_type': case['tabtype'], 'data': symdata, 'sh_entsize': W.SYM_SIZE[cls], 'sh_link': P + 1, 'sh_info': 1}]
     idx = {}
     bnames = [n.encode('utf-8') for n in names]
     if case.get('shndx_table') is not None:
         idx['shndx'] = len(secs)
-        secs.append({'name': '.symtab_shndx', 'sh_type': 18, 'sh_link': 2, 'sh_entsize': 4,
+        secs.append({'name': '.symtab_shndx', 'sh_type': 18, 'sh_link': P + 2, 'sh_entsize': 4,
                      'data': struct.pack(W.E(le) + '%dI' % len(syms), *case['shndx_table'])})
     if case.get('sysv'):
         idx['sysv'] = len(secs)
         order = case['sysv'].get('order')
         key = (lambda i: order.index(i)) if order else None
-        secs.append({'name': '.hash', 'sh_type': 5, 'sh_link': 2, 'sh_entsize': 4,
+        secs.append({'name': '.hash', 'sh_type': 5, 'sh_link': P + 2, 'sh_entsize': 4,
                      'data': W.enc_sysv_hash(le, bnames, case['sysv']['nbucket'], key)})
     if case.get('gnu'):
         g = case['gnu']
         idx['gnu'] = len(secs)
-        secs.append({'name': '.gnu.hash', 'sh_type': 0x6ffffff6, 'sh_link': 2,
+        secs.append({'name': '.gnu.hash', 'sh_type': 0x6ffffff6, 'sh_link': P + 2,
                      'data': W.enc_gnu_hash(cls, le, bnames, g['symoffset'], g['nbuckets'], g['bloom_size'], g['bloom_shift'])})
     if case.get('syminfo') is not None:
         idx['syminfo'] = len(secs)
-        secs.append({'name': '.SUNW_syminfo', 'sh_type': 0x6ffffffc, 'sh_link': 2, 'sh_entsize': 4,
+        secs.append({'name': '.SUNW_syminfo', 'sh_type': 0x6ffffffc, 'sh_link': P + 2, 'sh_entsize': 4,
                      'data': b''.join(struct.pack(W.E(le) + 'HH', b, f) for (b, f) in case['syminfo'])})
     secs.append({'name': '.shstrtab', 'sh_type': 3, 'data': b''})
     m = {'cls': cls, 'le': le, 'e_type': 3, 'e_machine': case.get('e_machine', 62), 'osabi': case.get('osabi', 0), 'sections': secs,
@@ -113,7 +114,7 @@ def run_case(ctx, case):
     M = (1 << cls) - 1
     try:
         ef = L['ELFFile'](io.BytesIO(data))
-        tab = ef.get_section(2)
+        tab = ef.get_section(2 + case.get('pad', 0))
     except Exception as e:  # noqa
         ctx.fail_exc('open', e, case)
         ctx.case(data, False)
@@ -185,6 +186,16 @@ def run_case(ctx, case):
         else:
             for g, i in zip(got, exp):
                 check_sym('symtab|by_name', g, syms[i])
+            # the returned list belongs to the caller: whatever they do with it, the next lookup answers from the table
+            del got[len(got) // 2:]
+            got.append(None)
+            try:
+                again = tab.get_symbol_by_name(q)
+                if again is None or len(again) != len(exp) or any(g is None or g.name != q for g in again):
+                    ctx.fail('symtab|by_name|depends-on-caller-use-of-earlier-result', 'query %r: %d symbols bear the name, the second lookup returned %s' % (
+                        q, len(exp), 'None' if again is None else '%d items' % len(again)), case)
+            except Exception as e:  # noqa
+                ctx.fail_exc('symtab|by_name|second-lookup', e, case)
 
     nt = False
     # XINDEX companion
@@ -381,6 +392,18 @@ def sweep(tier):
     ch = RndChooser(31337)
     for n in (1, 2, 400):
         cases.append(build_case(ch, tier, n))
+    # tables at section indices in and around 0xff00..0xffff (reserved values of 16-bit fields, ordinary values of the 32-bit sh_link)
+    for k, pad in enumerate((0xfeff, 0xff00, 0xfffd, 0x10000) if tier == 'thorough' else (0xfeff, 0xfffd)):
+        c = build_case(RndChooser(4242 + k), tier, 12)
+        c.update(pad=pad, tabtype=(11, 2)[k % 2], sysv={'nbucket': 3}, syminfo=[[i, i] for i in range(12)])
+        c.pop('order', None)
+        c['gaps'] = {}
+        if c.get('gnu') is None:
+            names = sorted([s['name'] for s in c['syms'][1:]], key=lambda nm: W.gnu_hash(nm.encode('utf-8')) % 2)
+            for s, nm in zip(c['syms'][1:], names):
+                s['name'] = nm
+            c['gnu'] = {'symoffset': 1, 'nbuckets': 2, 'bloom_size': 1, 'bloom_shift': 5}
+        cases.append(c)
     return cases
 
 
